@@ -74,6 +74,7 @@ func runC05(p *load.Program, r *oblig.Report) {
 	c05StandaloneReadFrom(p, r)
 	c05MessageSizeFloor(p, r)
 	c05TimeSiblings(p, r)
+	c05RelativeInnerOffsets(p, r)
 	c05VersionPerBatch(p, r)
 }
 
@@ -313,9 +314,23 @@ func varintAcrossRefills(p *load.Program, r *oblig.Report, rule string) {
 					nonConst = true
 				}
 			}
-			q2 := an.PathQuery{Fn: fn, Target: func(i ssa.Instruction) bool { return i == ssa.Instruction(ph) }}
-			if nonConst && q2.ReachableFrom(an.PointOf(d)) != nil {
-				carried = true
+			if !nonConst {
+				continue
+			}
+			// the accumulator must arrive at the φ, on the way back from the refill, with what was accumulated so
+			// far: the edge by which the refill path first enters the φ's block carries a computed value, not the
+			// initial constant (an accumulator declared inside the refill loop starts again from zero)
+			for i, pred := range ph.Block().Preds {
+				if _, isC := ph.Edges[i].(*ssa.Const); isC || len(pred.Instrs) == 0 {
+					continue
+				}
+				last := pred.Instrs[len(pred.Instrs)-1]
+				q2 := an.PathQuery{Fn: fn,
+					Stop:   func(i ssa.Instruction) bool { return i.Block() == ph.Block() },
+					Target: func(i ssa.Instruction) bool { return i == last }}
+				if d.Block() == pred || q2.ReachableFrom(an.PointOf(d)) != nil {
+					carried = true
+				}
 			}
 		}
 		if !carried {
